@@ -127,8 +127,8 @@ func (w *world) governanceStep() bool {
 		action := "approve"
 		switch {
 		case open > 0 && x < 65:
-		case len(w.registered) > 0 && len(w.openRemove) == 0 && x < 85:
-			action = "remove"
+		case len(w.registered) > 0 && len(w.openRemove) < 2 && x < 85:
+			action = "remove" // up to two removal requests are open at once: their lists overlap
 		case len(w.openApply) < 2:
 			action = "register"
 		case open == 0:
@@ -158,14 +158,48 @@ func (w *world) governanceStep() bool {
 			})
 		case action == "remove": // removal request for registered addresses
 			applicant := w.users[w.rng.Intn(len(w.users))]
-			var list []common.Address
+			var reg []common.Address
 			for a := range w.registered {
-				list = append(list, a)
+				reg = append(reg, a)
 			}
-			sortAddrs(list)
-			w.rng.Shuffle(len(list), func(i, j int) { list[i], list[j] = list[j], list[i] })
-			if len(list) > 2 {
-				list = list[:1+w.rng.Intn(2)]
+			sortAddrs(reg)
+			w.rng.Shuffle(len(reg), func(i, j int) { reg[i], reg[j] = reg[j], reg[i] })
+			if len(reg) > 2 {
+				reg = reg[:1+w.rng.Intn(2)]
+			}
+			list := append([]common.Address{}, reg...)
+			// overlapping and partially stale lists: an address that another open removal request
+			// already names (gone by the time this one is approved), a formerly registered one, or one
+			// that never was a relayer — at any position of the list
+			for _, oid := range w.openRemove {
+				if w.rng.Intn(2) == 0 && len(w.removes[oid]) > 0 {
+					list = append(list, w.removes[oid][w.rng.Intn(len(w.removes[oid]))])
+				}
+			}
+			if w.rng.Intn(3) == 0 {
+				var gone []common.Address
+				for a := range w.removed {
+					gone = append(gone, a)
+				}
+				sortAddrs(gone)
+				if len(gone) > 0 {
+					list = append(list, gone[w.rng.Intn(len(gone))])
+				}
+			}
+			if w.rng.Intn(4) == 0 {
+				list = append(list, w.users[6+w.rng.Intn(2)].Addr)
+			}
+			{ // no address twice, random order
+				seen := map[common.Address]bool{}
+				out := list[:0]
+				for _, a := range list {
+					if !seen[a] {
+						seen[a] = true
+						out = append(out, a)
+					}
+				}
+				list = out
+				w.rng.Shuffle(len(list), func(i, j int) { list[i], list[j] = list[j], list[i] })
 			}
 			args := serialize((&relayer_manager.RelayerListParam{AddressList: list, Address: applicant.Addr}).Serialization)
 			tx := w.c.InvokeTx(utils.RelayerManagerContractAddress, relayer_manager.REMOVE_RELAYER, args, pk.Single(applicant))
@@ -214,6 +248,15 @@ func (w *world) governanceStep() bool {
 				}
 				if rm {
 					if got, found := find(st, "ApproveRemoveRelayer"); found && got == rid {
+						staleSeen := false
+						for _, a := range w.removes[rid] {
+							if !w.registered[a] {
+								staleSeen = true
+							} else if staleSeen {
+								w.r.Count("removals_with_stale_address_before_registered", 1)
+								break
+							}
+						}
 						for _, a := range w.removes[rid] {
 							if w.registered[a] {
 								w.removed[a] = true
@@ -375,7 +418,7 @@ func (w *world) query(n int, probe func(tx *types.Transaction) (admitted bool, o
 func TestC36(t *testing.T) {
 	r := kit.Start(t, "C36", "exploration")
 	defer r.Finish()
-	r.Rule("histories of relayer_manager transactions (register / remove requests by users, approvals one validator at a time) committed block by block on a real ledger; after every block a batch of signer sets drawn from 12 shapes (none, user, validator, registered multi-sig, several users, operator multi-sig, other m-of-n of the validators, multi-sig merely containing a member, ...) is submitted to the admission rule; distinct = (shape, registry state of the signers, expected verdict, reason)")
+	r.Rule("histories of relayer_manager transactions (register / remove requests by users, approvals one validator at a time) committed block by block on a real ledger (up to two removal requests open at once, removal lists in random order that may overlap another open request or name formerly / never registered addresses); after every block a batch of signer sets drawn from 12 shapes (none, user, validator, registered multi-sig, several users, operator multi-sig, other m-of-n of the validators, multi-sig merely containing a member, ...) is submitted to the admission rule; distinct = (shape, registry state of the signers, expected verdict, reason)")
 	r.Assume("a registration / removal is 'approved and committed' when the committed approval transaction announces ApproveRegisterRelayer / ApproveRemoveRelayer for the request id (how many validator approvals that takes is property C32's subject)")
 	r.Assume("permitted consensus addresses = the addresses of the consensus peers of the current governance view plus their operator multi-sig address (validator set fixed at genesis in these histories); the rule is evaluated the way the tx actor does it: updatePermittedAddrMap, then isValidSender")
 	rng := r.Rand("c36")
@@ -454,6 +497,7 @@ func TestC36(t *testing.T) {
 	}
 	r.Require("registrations_took_effect", 4)
 	r.Require("removals_took_effect", 2)
+	r.Require("removals_with_stale_address_before_registered", 2)
 	r.Require("expected_accept_relayer", 100)
 	r.Require("expected_accept_permitted", 100)
 	r.Require("expected_refuse", 100)
